@@ -211,16 +211,15 @@ pub fn ball_pivot_with_centers_2d(
         // the last ball contact point is the one we choose to pivot on
         let mut best: Option<PivotPoint> = None;
         for (ni, _) in neighbors.iter() {
-            // We want to skip the neighbor two elements back, because that's the one we just came
-            // from, and it will otherwise have a perfect intersection at 0 degrees.
-            if results.len() >= 2 && *ni == results[results.len() - 2] {
-                continue;
-            }
-
+            // The point we just came from has an intersection at the current position of the
+            // ball (0 degrees, or a full turn once rounding is involved), which is skipped below.
+            // Its other intersection is a genuine candidate: it is where the ball touches that
+            // point again after swinging around a dead-end tip, and ignoring it would let the ball
+            // pass through the point.
             for pi in circles[working_index].intersections_with(&circles[*ni]) {
                 let di = pi - points[working_index];
                 let angle = directed_angle(&direction, &di, pivot_direction);
-                if angle < 1e-6 {
+                if !(1e-6..=2.0 * PI - 1e-6).contains(&angle) {
                     continue;
                 }
 
